@@ -338,8 +338,9 @@ class C15(core.Check):
         nsteps = k.choice([1, 1, 1, 2, 3]) if not (special or faults) else k.choice([1, 2, 2, 3])
         originals = dict(state["files"])
         for _ in range(nsteps):
-            mode = r.choice(["open", "load_named", "load_relname", "loads", "load_stringio", "parser_file", "parser_file", "parser_file", "parser_text", "parser_text"])
-            cwd = rootdir if mode in ("loads", "load_stringio", "parser_text") else r.choice(["/simfs/elsewhere", "/simfs", "/simfs/proj/inc", "/simfs/other/deep"])
+            mode = r.choice(["open", "load_named", "load_relname", "loads", "load_stringio", "parser_file", "parser_file", "parser_file", "parser_text", "parser_text",
+                             "open_bare", "load_bare"])
+            cwd = rootdir if mode in ("loads", "load_stringio", "parser_text", "open_bare", "load_bare") else r.choice(["/simfs/elsewhere", "/simfs", "/simfs/proj/inc", "/simfs/other/deep"])
             steps.append({"mode": mode, "cwd": cwd})
         if special in ("missing", "missing_with_sibling_decoy", "isdir") and nsteps >= 2 and k.random() < 0.7:
             # the operator repairs the tree between two calls: the retry must succeed
@@ -434,6 +435,12 @@ class C15(core.Check):
             if mode == "open_rel":
                 return mf.open(rel, **kw)
             with open(rel, "r", encoding="utf-8", newline="") as fp:
+                return mf.load(fp, **kw)
+        if mode in ("open_bare", "load_bare"):
+            bare = posixpath.basename(root)  # the working directory is the root's folder and the name has no directory part
+            if mode == "open_bare":
+                return mf.open(bare, **kw)
+            with open(bare, "r", encoding="utf-8", newline="") as fp:
                 return mf.load(fp, **kw)
         if mode == "open":
             return mf.open(root, **kw)
